@@ -132,7 +132,7 @@ func runModule(t *testing.T, mk func() *adapter, n hx.N) {
 			return l
 		}
 		sawWhole, sawPerRes, sawInvalid, sawValid := false, false, false, false
-		sawEdit := false
+		sawEdit, sawTwin := false, false
 		type past struct {
 			res  string // "" = whole set
 			list []any
@@ -157,18 +157,30 @@ func runModule(t *testing.T, mk func() *adapter, n hx.N) {
 					}
 					if len(idx) > 0 {
 						j := idx[rapid.IntRange(0, len(idx)-1).Draw(t, "rule")]
-						donor := a.gen(t, a.resOf(l[j]), false)
-						dv, rv := reflect.ValueOf(donor).Elem(), reflect.ValueOf(l[j]).Elem()
-						var fields []int
-						for f := 0; f < rv.NumField(); f++ {
-							if nm := rv.Type().Field(f).Name; rv.Field(f).CanSet() && nm != "Resource" {
-								fields = append(fields, f)
+						if rapid.IntRange(0, 2).Draw(t, "twin") == 0 {
+							// the same rule listed twice (equal values, distinct objects), next to each other or at the end
+							tw := a.clone(l[j])
+							if rapid.Bool().Draw(t, "adjacent") {
+								l = append(l[:j+1:j+1], append([]any{tw}, l[j+1:]...)...)
+							} else {
+								l = append(l, tw)
 							}
+							c.Op("edit: rule %d of an earlier list is listed twice", j)
+							sawTwin = true
+						} else {
+							donor := a.gen(t, a.resOf(l[j]), false)
+							dv, rv := reflect.ValueOf(donor).Elem(), reflect.ValueOf(l[j]).Elem()
+							var fields []int
+							for f := 0; f < rv.NumField(); f++ {
+								if nm := rv.Type().Field(f).Name; rv.Field(f).CanSet() && nm != "Resource" {
+									fields = append(fields, f)
+								}
+							}
+							f := fields[rapid.IntRange(0, len(fields)-1).Draw(t, "field")]
+							rv.Field(f).Set(dv.Field(f))
+							c.Op("edit: field %s of rule %d of an earlier list := %v", rv.Type().Field(f).Name, j, dv.Field(f).Interface())
+							sawEdit = true
 						}
-						f := fields[rapid.IntRange(0, len(fields)-1).Draw(t, "field")]
-						rv.Field(f).Set(dv.Field(f))
-						c.Op("edit: field %s of rule %d of an earlier list := %v", rv.Type().Field(f).Name, j, dv.Field(f).Interface())
-						sawEdit = true
 						h2 := past{h.res, l}
 						history = append(history, h2)
 						replay = &h2
@@ -350,6 +362,7 @@ func runModule(t *testing.T, mk func() *adapter, n hx.N) {
 		c.ClassIf(sawWhole && sawPerRes, "whole+per-resource")
 		c.ClassIf(sawInvalid, "has-invalid-rule")
 		c.ClassIf(sawEdit, "one-field-edit-of-an-earlier-list")
+		c.ClassIf(sawTwin, "a-rule-listed-twice")
 		if sawWhole && (sawPerRes || !a.perRes) && sawInvalid && sawValid {
 			c.NonTrivial()
 		}
